@@ -20,18 +20,18 @@ def found : List (String × List String) := [
 
 /-- (kind, mutators the catalogue of the correspondence harness drives) -/
 def catalogue : List (String × List String) := [
-  ("anchor", ["color=", "move", "name=", "x=", "y="]),
+  ("anchor", ["color=", "color=spelled", "move", "name=", "x=", "y="]),
   ("component", ["baseGlyph=", "move", "transformation="]),
   ("contour", ["appendPoint", "clear", "clockwise=", "identifier=", "insertPoint", "move", "removePoint", "reverse", "setStartPoint"]),
   ("data", ["__delitem__", "__setitem__"]),
   ("dict", ["__delitem__", "__setitem__", "clear", "update"]),
   ("features", ["text="]),
-  ("font", ["appendGuideline", "clearGuidelines", "glyphOrder=", "removeGuideline"]),
-  ("glyph", ["appendAnchor", "appendComponent", "appendContour", "appendGuideline", "bottomMargin=", "clear", "clearAnchors", "clearComponents", "clearContours", "clearGuidelines", "clearImage", "height=", "image=", "leftMargin=", "markColor=", "move", "name=", "note=", "removeAnchor", "removeComponent", "removeContour", "removeGuideline", "rightMargin=", "topMargin=", "unicode=", "unicodes=", "verticalOrigin=", "width="]),
-  ("guideline", ["color=", "name=", "x="]),
+  ("font", ["appendGuideline", "clearGuidelines", "glyphOrder=", "guidelines=reordered", "removeGuideline"]),
+  ("glyph", ["appendAnchor", "appendComponent", "appendContour", "appendGuideline", "bottomMargin=", "clear", "clearAnchors", "clearComponents", "clearContours", "clearGuidelines", "clearImage", "height=", "image=", "leftMargin=", "markColor=", "move", "name=", "note=", "reappendAnchor", "reappendComponent", "reappendContour", "reappendGuideline", "removeAnchor", "removeComponent", "removeContour", "removeGuideline", "rightMargin=", "topMargin=", "unicode=", "unicodes=", "verticalOrigin=", "width="]),
+  ("guideline", ["color=", "color=spelled", "name=", "x="]),
   ("image", ["color=", "fileName=", "move", "transformation="]),
   ("images", ["__delitem__", "__setitem__", "__setitem__unread"]),
-  ("layer", ["__delitem__", "color=", "insertGlyph", "newGlyph"]),
+  ("layer", ["__delitem__", "color=", "color=spelled", "insertGlyph", "newGlyph"]),
   ("layerSet", ["__delitem__", "defaultLayer=", "layerOrder=", "newLayer"])
 ]
 
